@@ -65,6 +65,13 @@ def status_stores(f, variant=None, cleanup=False):
         v = None
         if e[0] == 'agg' and e[1].startswith(STATUS + '::'):
             v = e[1].rsplit('::', 1)[1]
+        else:
+            # `status = match .. { A => Status::X {..}, _ => Status::Y }`: one entry per alternative, all at the store
+            e2 = ExprBuilder(f, multi='phi').rvalue(s['rv'])
+            if e2[0] == 'phi' and all(a[0] == 'agg' and a[1].startswith(STATUS + '::') for a in e2[1]):
+                for a in e2[1]:
+                    out.append((loc, a[1].rsplit('::', 1)[1], a))
+                continue
         out.append((loc, v, e))
     if variant is not None:
         out = [x for x in out if x[1] == variant]
@@ -220,6 +227,23 @@ def life3(r, facts):
     r.floor(2)
 
 
+def _left_by_replace(f, loc, v):
+    eb = ExprBuilder(f)
+    others = [l for l, _, _ in status_stores(f) if l != loc]
+    for l, t in f.calls():
+        if (t.get('callee') or '') != 'std::mem::replace' or len(t['args']) != 2:
+            continue
+        ap = access_path(eb.operand(t['args'][0]))
+        val = eb.operand(t['args'][1])
+        if not (ap and ap[1].split('.')[-1] == 'status' and val[0] == 'agg' and val[1] == STATUS + '::' + v):
+            continue
+        if not f.dominates(l, loc):
+            continue
+        if f.forward_paths_hit([Loc(t['target'], 0)], others, blockers=[loc]) is None or not others:
+            return True
+    return False
+
+
 def life4(r, facts):
     """free / Done only on the final completion"""
     f = facts.fn(UPDATE)
@@ -256,6 +280,10 @@ def life4(r, facts):
     # any other status store in update must be part of the replace dance (Complete -> Done immediately)
     for loc, v, e in status_stores(f):
         if v not in ('Done',):
+            # storing back the variant that a dominating `replace(&mut self.status, Status::V)` just left there changes
+            # nothing (`self.status = match replace(..) { Running|Done => Done, _ => Status::Complete }`)
+            if v is not None and _left_by_replace(f, loc, v):
+                continue
             r.bad('Shared::update/status-store', 'unexpected status store %s in update' % v, f.where(loc))
     # Completion::complete == (flags & F_MORE) == 0
     g = facts.fn(COMPLETE)
